@@ -240,6 +240,14 @@ class _Pool:
 def cmd_checks(args):
     j = int(args[args.index("-j") + 1]) if "-j" in args else 12
     muts = _load()
+    prev = {}
+    if "--redo-errors" in args or "--redo-silent" in args:
+        # re-run only the mutants whose earlier run ended in an analysis error (or, --redo-silent, on which nothing fired):
+        # used after the checkers changed
+        prev = json.load(open(os.path.join(OUT, "checks.json")))
+        want = lambda r: r.get("status") == "ok" and ((r["errors"] and "--redo-errors" in args) or (not r["fired"] and "--redo-silent" in args))
+        muts = [m for m in muts if want(prev.get(str(m["id"]), {}))]
+        print("re-running", len(muts), "mutants", flush=True)
     pool = _Pool("pkg")
 
     def one(m):
@@ -260,11 +268,11 @@ def cmd_checks(args):
         fired = [f"{l.split()[0]}:{l.split()[2] if len(l.split()) > 2 else ''}" for l in p.stdout.splitlines() if " rc=1" in l]
         errs = [l.split()[0] + ":" + " ".join(l.split()[2:])[:80] for l in p.stdout.splitlines() if " rc=2" in l]
         return m["id"], {"status": "ok", "fired": fired, "errors": errs}
-    res = {}
+    res = dict(prev)
     try:
         with ThreadPoolExecutor(j) as ex:
             for k, (i, r) in enumerate(ex.map(one, muts)):
-                res[i] = r
+                res[str(i)] = r
                 if k % 200 == 0:
                     print(k, "/", len(muts), flush=True)
     finally:
